@@ -125,7 +125,8 @@ SKELETON = [
 
 
 # ---- batching heuristic (NOT a verdict), mirrors the bookkeeping of StatusAgg.tla -----------------
-def triage(scen):
+def triage_all(scen):
+    """all (predicate, class) pairs failing at the first event where anything fails (else [])."""
     sc = scen[0]
     par, gq, pgof, preq = sc["par"], sc["gq"], sc["pgof"], sc["preq"]
     nq, ng, np_ = len(par), len(gq), len(pgof)
@@ -174,11 +175,12 @@ def triage(scen):
             qfresh[q - 1] = False
 
     for ev in scen[1:]:
+        out = []
         if ev.get("err"):
-            return ("D_NoError", "error")
+            return [("D_NoError", "error")]
         if ev["ev"] == "Deploy":
             if ev["ch"] or (ev["round"] > 1 and ev["w"] > 0):
-                return ("C20_Operator", "second-deploy-writes" if not ev["ch"] else "object-set-or-content-changed")
+                return [("C20_Operator", "second-deploy-writes" if not ev["ch"] else "object-set-or-content-changed")]
             continue
         a, i, w = ev["ev"], ev["i"], ev["w"]
         fix = False
@@ -211,13 +213,13 @@ def triage(scen):
             if pgfresh[g - 1]:
                 t = truepg(g)
                 if pgst[g - 1]["req"] != t["req"]:
-                    return ("C20_PodGroupRequested", "requested-mismatch")
+                    out.append(("C20_PodGroupRequested", "requested-mismatch"))
                 if pgst[g - 1]["alloc"] != t["alloc"]:
-                    return ("C20_PodGroupAllocated", "allocated-mismatch")
+                    out.append(("C20_PodGroupAllocated", "allocated-mismatch"))
                 if not pre[g - 1] and pgst[g - 1]["nonpre"] != t["alloc"]:
-                    return ("C20_PodGroupNonPreemptibleSet", "allocatedNonPreemptible-not-allocated-for-non-preemptible-group")
+                    out.append(("C20_PodGroupNonPreemptibleSet", "allocatedNonPreemptible-not-allocated-for-non-preemptible-group"))
                 if pre[g - 1] and pgst[g - 1]["nonpre"] != Z:
-                    return ("C20_PodGroupNonPreemptibleCleared", "stale-allocatedNonPreemptible-after-flip-to-preemptible")
+                    out.append(("C20_PodGroupNonPreemptibleCleared", "stale-allocatedNonPreemptible-after-flip-to-preemptible"))
         if a == "RecQ":
             s = ZS
             for c in range(nq):
@@ -227,7 +229,7 @@ def triage(scen):
                 if gq[g] == i:
                     s = adds(s, pgst[g])
             if qst[i - 1] != s:
-                return ("C20_QueueLocal", "queue-not-sum-of-children-and-podgroups")
+                out.append(("C20_QueueLocal", "queue-not-sum-of-children-and-podgroups"))
         for q in range(1, nq + 1):
             if qfresh[q - 1]:
                 s = ZS
@@ -235,11 +237,18 @@ def triage(scen):
                     if gq[g - 1] in sub(q):
                         s = adds(s, truepg(g))
                 if qst[q - 1] != s:
-                    return ("C20_Queue", "queue-aggregate-mismatch")
+                    out.append(("C20_Queue", "queue-aggregate-mismatch"))
         if a in ("RecPG", "RecQ") and fix and (w != 0 or ev["ch"] != 0):
             what = "podgroup" if a == "RecPG" else "queue"
-            return ("C20_Fixpoint", "%s-status-%s" % (what, "changed-on-repeat" if ev["ch"] else "patched-without-change"))
-    return None
+            out.append(("C20_Fixpoint", "%s-status-%s" % (what, "changed-on-repeat" if ev["ch"] else "patched-without-change")))
+        if out:
+            return out
+    return []
+
+
+def triage(scen):
+    t = triage_all(scen)
+    return t[0] if t else None
 
 
 class SigCtx:
@@ -254,8 +263,8 @@ class SigCtx:
         inv = replay_obj.get("invariant", signature.split(" ")[0])
         scen = replay_obj.get("trace", [])
         at = replay_obj.get("at_event")
-        t = triage(scen[:at] if at else scen) if scen else None
-        cls = t[1] if t and t[0] == inv else "unclassified"
+        ts = triage_all(scen[:at] if at else scen) if scen else []
+        cls = next((c for (i, c) in ts if i == inv), "unclassified")
         n = self._affected.get((inv, cls), 0)
         if n:
             text += "\nscenarios of this run in the same violation class: %d" % n
